@@ -4,6 +4,7 @@
   (`getParameter`, the specification path) and compares tree / PDF indices and every float32 entry
   bit for bit with what the implementation handed out.
 -/
+import Jb.Model.Supported
 import Driver.Util
 import Jb.Model.HtsParse
 import Jb.Model.Synth
@@ -201,6 +202,14 @@ instance : FromFile Float where
   ofF32 b := (Float32.ofBits b).toFloat
   ofDecimal s := parseFloatText s
 
+/-- does the voice set lie in the hypothesis class of the capstone theorem `bytes_synth_total` (C01)? The computable check
+    `supportedVoice` / `compatibleVoice` of `Jb/Model/Supported.lean`, run on the very files of the case. -/
+def supportedTag (voices : List Jb.Hts.ParsedVoice) : String :=
+  match voices with
+  | [] => "novoice"
+  | v0 :: _ =>
+    if voices.all (fun v => Jb.Hts.supportedVoice v && Jb.Hts.compatibleVoice v0 v) then "supported" else "UNSUPPORTED"
+
 /-- `e2e`: the whole library from the voice files: header defaults, setter history, tree selection with
     wildcard questions, interpolation, durations, MLPG+GV, vocoder — against `Engine::synthesize`. -/
 def runE2e (voices : List ParsedVoice) : P Verdict := do
@@ -230,7 +239,7 @@ def runE2e (voices : List ParsedVoice) : P Verdict := do
       | .panic s => some s!"model panics at {s}; implementation returns {w.length} samples"
       | .err _ => some "model err"
     let (bo, ba) := match m with | .ok mw => (countBits mw w, w.length) | _ => (0, 0)
-    pure { corr, oracle := none, nontriv := nl ≥ 1, cls := s!"{kind}:nv{nv}:ops{min k 3}", bitsOk := bo, bitsAll := ba }
+    pure { corr, oracle := none, nontriv := nl ≥ 1, cls := s!"{kind}:nv{nv}:ops{min k 3}:{supportedTag voices}", bitsOk := bo, bitsAll := ba }
   else
     let detail ← next
     let corr := match m with
